@@ -100,8 +100,9 @@ func directivesSeq2(s string) iter.Seq2[string, string] {
 			if len(key) == 0 {
 				continue
 			}
-			// Directive names are case-insensitive (RFC 9111 §5.2).
-			key = strings.ToLower(key)
+			// Directive names are case-insensitive (RFC 9111 §5.2); they are
+			// tokens, so only ASCII letters have a case.
+			key = asciiLower(key)
 			if !yield(key, value) {
 				return
 			}
